@@ -11,6 +11,9 @@
 (* computed here: it is the sink protocol of FeaParse.tla, evaluated by    *)
 (* FeaParseTrace.tla on the tree the real parser returns.                  *)
 (*                                                                         *)
+(* With ALPHA = "rules" the states are <<template, x, y, z>>: a rule        *)
+(* template whose slots X, Y, Z are filled from Items (j = 2).             *)
+(*                                                                         *)
 (* Strings of at most FullLen lexemes are emitted exhaustively; longer     *)
 (* ones are emitted iff a seeded hash of the string is below Keep/10000    *)
 (* (quick tier sampling; Keep = 10000 emits everything).                   *)
@@ -50,6 +53,18 @@ Extra == <<
   "cvParameters", "featureNames", "sizemenuname", "required", "exclude_dflt", "MarkAttachmentType"
 >>
 
+\* ---- grammar-shaped inputs (ALPHA = "rules"): a rule template with three slots filled from Items, inside
+\* a feature block that follows the declarations of @c and lookup l.  Mostly error-free programs: they reach
+\* the contextual-rule rewrite (marked glyphs), range splitting and validation.
+Items == <<"a", "b", "a-b", "b-a", "[a b]", "[a - b]", "[b-a c]", "@c", "%5C1", "a'", "[a b]'", "@c'", "NULL", "x-y">>
+Templates == <<
+  "sub X by Y;", "sub X Y by Z;", "sub X from Y;", "sub X Y Z by a;", "rsub X Y Z by b;", "ignore sub X Y Z;",
+  "sub X Y lookup l Z;", "pos X 10;", "pos X Y -5;", "pos X Y 5 Z;", "pos X <1 2 3 4> Y Z;", "enum pos X Y 3;",
+  "pos X lookup l Y Z;", "ignore pos X Y Z;", "@d = [X Y Z];", "pos X <anchor 1 2> mark @c Y Z;"
+>>
+Prefix == "@c = [a b];%0Alookup l { sub a by b; } l;%0Afeature f {%0A  "
+Suffix == "%0A} f;%0A"
+
 Alpha == IF IOEnv.ALPHA = "ext" THEN Main \o Extra ELSE Main
 NL == Len(Alpha)
 MaxLen == atoi(IOEnv.MAXLEN)
@@ -66,15 +81,21 @@ Mix(h, q, n) == IF n > Len(q) THEN h ELSE Mix((h * 7919 + q[n] * 104729 + 17) % 
 Hash(q, jj) == Mix((Seed * 31 + jj * 13 + 7) % 65521, q, 1) % 10000
 
 Init ==
-  \E n \in 0..MaxLen :
-    /\ s \in [1..n -> 1..NL]
-    /\ j \in (IF n <= 1 THEN {0} ELSE Joiners)
-    /\ (n <= FullLen \/ Hash(s, j) < Keep)
+  IF IOEnv.ALPHA = "rules"
+  THEN /\ j = 2
+       /\ s \in {<<t, x, y, z>> : t \in 1..Len(Templates), x, y, z \in 1..Len(Items)}
+       /\ (Keep >= 10000 \/ Hash(s, j) < Keep)
+  ELSE \E n \in 0..MaxLen :
+         /\ s \in [1..n -> 1..NL]
+         /\ j \in (IF n <= 1 THEN {0} ELSE Joiners)
+         /\ (n <= FullLen \/ Hash(s, j) < Keep)
 
 Next == UNCHANGED <<s, j>>
 Spec == Init /\ [][Next]_<<s, j>>
 
 Emit == PrintT(<<"R", j, s>>)
 
-ASSUME PrintT(<<"LEX", ToJson(Alpha)>>)
+ASSUME PrintT(<<"LEX", ToJson(IF IOEnv.ALPHA = "rules"
+                                THEN [items |-> Items, templates |-> Templates, prefix |-> Prefix, suffix |-> Suffix]
+                                ELSE [alpha |-> Alpha])>>)
 =============================================================================
